@@ -93,7 +93,22 @@ class ConstMatrix:
         return self.m
 
 
-def make_data(n, omega_rows, delta_rows, phi_rows, inter, bad=None, spe=0.0, dt=10):
+class SwitchMatrix:
+    """picklable time-dependent interaction matrix (as with an SLM mask): m1 while t < t_switch, m2 afterwards"""
+
+    def __init__(self, m1, m2, t_switch):
+        self.m1, self.m2, self.t_switch = m1, m2, t_switch
+
+    def __call__(self, t):
+        return self.m1 if t < self.t_switch else self.m2
+
+
+def masked(inter, atoms):
+    """interaction matrix with the rows/columns of the SLM-masked atoms zeroed"""
+    return [[0 if (i in atoms or j in atoms) else inter[i][j] for j in range(len(inter))] for i in range(len(inter))]
+
+
+def make_data(n, omega_rows, delta_rows, phi_rows, inter, bad=None, spe=0.0, dt=10, switch=None):
     """hand-built SequenceData: one row of omega/delta/phi per time step, one column per atom"""
     import torch
     from emu_base import SequenceData, HamiltonianType
@@ -103,7 +118,9 @@ def make_data(n, omega_rows, delta_rows, phi_rows, inter, bad=None, spe=0.0, dt=
     M = torch.tensor(inter, dtype=torch.float64).reshape(n, n)
     return SequenceData(
         omega=torch.tensor(omega_rows, dtype=c).reshape(steps, n), delta=torch.tensor(delta_rows, dtype=c).reshape(steps, n),
-        phi=torch.tensor(phi_rows, dtype=c).reshape(steps, n), interaction_matrix=ConstMatrix(M),
+        phi=torch.tensor(phi_rows, dtype=c).reshape(steps, n),
+        interaction_matrix=ConstMatrix(M) if switch is None else SwitchMatrix(
+            torch.tensor(switch[0], dtype=torch.float64).reshape(n, n), M, float(switch[1])),
         qubit_ids=tuple(f"q{a}" for a in range(n)), bad_atoms=tuple(bad or [False] * n), lindblad_ops=[],
         state_prep_error=spe, target_times=[float(dt * k) for k in range(steps + 1)], eigenstates=["r", "g"],
         hamiltonian_type=HamiltonianType.Rydberg)
@@ -133,7 +150,10 @@ def gen_routing_case(rng, with_bad):
         for b in rng.sample(range(n), rng.randint(1, n - 3) if n > 3 else 1):
             bad[b] = True
     steps = 3
+    mask_atoms = rng.sample(range(n), rng.randint(1, max(1, n // 2)))
     return {"n": n, "perm": perm, "inter": inter, "bad": bad, "with_bad": with_bad,
+            # SLM-like: masked matrix during the first step (midpoint 5 < 12), full matrix afterwards
+            "inter_masked": masked(inter, mask_atoms), "t_switch": 12.0,
             # pairwise distinct per atom, different in every row (time step), different between the arrays
             "omega": [[10 + 3 * a + 100 * t for a in range(n)] for t in range(steps)],
             "delta": [[-(20 + a) - 50 * t for a in range(n)] for t in range(steps)],
@@ -149,13 +169,18 @@ def real_routing(c):
     from emu_mps.mps_backend_impl import create_impl
 
     data = make_data(c["n"], c["omega"], c["delta"], c["phi"], c["inter"], bad=c["bad"],
-                     spe=0.1 if c["with_bad"] else 0.0)
+                     spe=0.1 if c["with_bad"] else 0.0, switch=(c["inter_masked"], c["t_switch"]))
     cfg = make_config([Occupation(evaluation_times=[1.0])], optimize_qubit_ordering=True)
     rows = {k: [] for k in DRIVES}
     with Forced(c["perm"]) as f:
         impl = create_impl(data, cfg)
         impl.init()
         filt = impl.well_prepared_qubits_filter
+        inter_steps = []
+        for t in range(len(c["omega"])):  # the matrix the stepping asks for, step after step, on the same object
+            impl.current_time, impl.target_time = 10.0 * t, 10.0 * (t + 1)
+            inter_steps.append([[int(round(float(x))) for x in row] for row in impl._get_interaction_matrix()])
+        impl.current_time, impl.target_time = 0.0, 10.0
         for t in range(len(c["omega"])):
             for which in ("update_H", "update_H_no_noise"):
                 impl._timestep_index = t
@@ -167,7 +192,7 @@ def real_routing(c):
                         rows[k].append(got[k])
                 elif any(got[k] != rows[k][-1] for k in DRIVES):
                     rows["omega"][-1] = ["update_H and update_H_no_noise disagree", got]
-    return {"inter": [[int(round(float(x))) for x in row] for row in f.make_H[0]],
+    return {"inter": [[int(round(float(x))) for x in row] for row in f.make_H[0]], "inter_steps": inter_steps,
             "omega": rows["omega"], "delta": rows["delta"], "phi": rows["phi"],
             "filter": None if filt is None else [bool(x) for x in filt]}
 
@@ -178,15 +203,15 @@ def routing_expr(c):
     leg = "[" + "; ".join(f"site_drive legacy {p} {zl(r)}" for r in allrows) + "]"
     fix = "[" + "; ".join(f"site_drive fixed {p} {zl(r)}" for r in allrows) + "]"
     return (f"(site_interaction {p} {zm(c['inter'])}, {leg}, {fix}, "
-            f"site_bad legacy {p} {bl(c['bad'])}, site_bad fixed {p} {bl(c['bad'])})")
+            f"site_bad legacy {p} {bl(c['bad'])}, site_bad fixed {p} {bl(c['bad'])}, site_interaction {p} {zm(c['inter_masked'])})")
 
 
 def routing_compare(c, real, mv, flags):
     """narrow the set of switch values compatible with the observation; returns error text or None.
     ALL rows of omega, delta and phi must follow the same switch value."""
-    inter, b_l, b_f = okv(mv[0]), okv(mv[3]), okv(mv[4])
+    inter, b_l, b_f, inter_m = okv(mv[0]), okv(mv[3]), okv(mv[4]), okv(mv[5])
     d_l, d_f = [okv(x) for x in mv[1]], [okv(x) for x in mv[2]]
-    if inter is None or b_l is None or b_f is None or any(x is None for x in d_l + d_f):
+    if inter is None or inter_m is None or b_l is None or b_f is None or any(x is None for x in d_l + d_f):
         return f"model raised: {mv}"
     real_rows = [r for k in DRIVES for r in real[k]]
     ok = set()
@@ -197,15 +222,19 @@ def routing_compare(c, real, mv, flags):
                 continue
         else:
             keep = [True] * c["n"]
-        exp_inter = [[inter[i][j] for j in range(c["n"]) if keep[j]] for i in range(c["n"]) if keep[i]]
-        if exp_inter != real["inter"]:
+        def filt(m):
+            return [[m[i][j] for j in range(c["n"]) if keep[j]] for i in range(c["n"]) if keep[i]]
+
+        # time-dependent matrix: masked at make_H and during step 0 (midpoint 5 < t_switch), full afterwards
+        steps_expected = [filt(inter_m if 10.0 * t + 5.0 < c["t_switch"] else inter) for t in range(len(c["omega"]))]
+        if filt(inter_m) != real["inter"] or steps_expected != real["inter_steps"]:
             continue
         for drive_v, rows in ((False, d_l), (True, d_f)):
             if len(rows) == len(real_rows) and all([x for x, k in zip(m, keep) if k] == r for m, r in zip(rows, real_rows)):
                 ok.add((drive_v, mask_v))
     if not ok:
         flags["routing"] = set()
-        return (f"no variant reproduces the observed routing (interaction matrix, every row of omega/delta/phi, "
+        return (f"no variant reproduces the observed routing (interaction matrix at make_H and at every step, every row of omega/delta/phi, "
                 f"bad-atom filter): case={c} real={real}")
     flags["routing"] = ok if flags["routing"] is None else (flags["routing"] & ok)
     if not flags["routing"]:
@@ -644,6 +673,91 @@ def value_search(ctx, sc, hist):
     return None
 
 
+# ---- F. time-dependent interactions (SLM-like switch): reordering on vs off vs dense reference -------------
+# A forced (deliberately bad) chain order has its own TDVP splitting error (measured on the unchanged code: up to
+# 3e-3 for some permutations, < 1e-5 for most).  It is measured per case with the SAME drives and a time-independent
+# interaction matrix (a run the defect class "stale/time-dependent matrix" cannot affect); only well-conditioned
+# cases are judged, with a tolerance 20x above the conditioning bound and ~15x below the smallest effect seen.
+SWITCH_COND = 5e-4
+SWITCH_TOL = 1e-2
+
+
+def gen_switch_case(rng, nmax):
+    n = rng.randint(3, nmax)
+    perm = list(range(n))
+    if rng.random() < 0.4:  # a 3-cycle on three random sites
+        a, b, c = rng.sample(range(n), 3)
+        perm[a], perm[b], perm[c] = perm[b], perm[c], perm[a]
+    else:
+        while perm == list(range(n)):
+            rng.shuffle(perm)
+    steps = 30
+    return {"n": n, "perm": perm, "steps": steps, "spacing": rng.choice([7.0, 8.0]), "t_switch": rng.choice([50.0, 100.0, 150.0]),
+            "mask_atoms": rng.sample(range(n), rng.randint(1, n - 2)),
+            "omega": [round(2 * math.pi * rng.uniform(0.7, 1.1), 6) for _ in range(n)],
+            "delta": [round(rng.uniform(0.0, 3.0), 6) for _ in range(n)]}
+
+
+def run_switch_case(c):
+    """atoms on a line in register order (so reordering off is the well-conditioned chain order), interactions
+    C6/r^6, masked atoms non-interacting before t_switch; occupation/correlation/energy at the end (after the switch)"""
+    import logging
+    import numpy as np
+    import torch
+    from emu_mps import MPSBackend, MPSConfig
+    from pulser.backend import Occupation, CorrelationMatrix, Energy
+    from props import _dense_ref as D
+
+    n, steps = c["n"], c["steps"]
+    U = [[0.0 if i == j else 5420158.53 / (c["spacing"] * abs(i - j)) ** 6 for j in range(n)] for i in range(n)]
+    U1 = masked(U, c["mask_atoms"])
+    out = {}
+    for label, switch in (("", (U1, c["t_switch"])), ("const_", None)):
+        data = make_data(n, [c["omega"]] * steps, [c["delta"]] * steps, [[0.0] * n] * steps, U, switch=switch)
+        for mode in (False, True):
+            cfg = MPSConfig(observables=[Occupation(evaluation_times=[1.0]), CorrelationMatrix(evaluation_times=[1.0]),
+                                         Energy(evaluation_times=[1.0])],
+                            dt=10, precision=1e-9, log_level=logging.ERROR, optimize_qubit_ordering=mode)
+            with Forced(c["perm"]):
+                r = MPSBackend._run_from_sequence_data(data, cfg)
+            out[label + ("on" if mode else "off")] = {
+                "atom_order": list(r.atom_order),
+                "occupation": [float(x) for x in torch.as_tensor(r.occupation[-1]).real.flatten()],
+                "corr": [float(x) for x in torch.as_tensor(r.correlation_matrix[-1]).real.flatten()],
+                "energy": float(torch.as_tensor(r.energy[-1]).real)}
+    times = [10.0 * k for k in range(steps + 1)]
+    sts, Hs = D.evolve(np.array([c["omega"]] * steps), np.array([c["delta"]] * steps), np.zeros((steps, n)),
+                       lambda t: np.array(U1 if t < c["t_switch"] else U), times, u_query="mid")
+    out["dense"] = {"occupation": [float(x) for x in D.occupation(sts[-1], n)],
+                    "corr": [float(x) for x in D.correlation(sts[-1], n).flatten()]}
+    return out
+
+
+def judge_switch(ctx, c, out):
+    """returns (error text or None, judged?)"""
+    def dmax(a, b):
+        return max(abs(x - y) for x, y in zip(a, b))
+
+    def dev(a, b):
+        return max(dmax(a["occupation"], b["occupation"]), dmax(a["corr"], b["corr"]),
+                   abs(a["energy"] - b["energy"]) / max(1.0, abs(b["energy"])) if "energy" in a and "energy" in b else 0.0)
+
+    cond = dev(out["const_on"], out["const_off"])     # splitting error of this forced chain order (constant matrix)
+    off_dev = dev(out["off"], out["dense"])            # reference run against the dense evolution
+    if off_dev > SWITCH_COND:
+        return f"reference run (reordering off) deviates from the dense reference by {off_dev:.2e}: case={c}", False
+    if cond > SWITCH_COND:
+        return None, False  # ill-conditioned chain order: not judged
+    devs = {"on-vs-off": dev(out["on"], out["off"]), "on-vs-dense": dev(out["on"], out["dense"])}
+    if max(devs.values()) > SWITCH_TOL:
+        ctx.violation("with a time-dependent interaction matrix (SLM-like switch mid-run) the qubit reordering changes the "
+                      f"reported values: {({k: round(v, 4) for k, v in devs.items()})} (occupation {out['on']['occupation']} vs "
+                      f"{out['off']['occupation']}); with a constant matrix the same chain order agrees to {cond:.1e}, "
+                      f"reordering off agrees with the dense reference to {off_dev:.1e}",
+                      {"case": c, "stage": "switch", "observed": out, "deviations": devs, "conditioning": cond,
+                       "finding_key": "reordering-changes-value-after-interaction-switch"})
+    return None, True
+
 # ---- D. whitelist --------------------------------------------------------------------------------
 def whitelist_table():
     import pulser.backend as pb
@@ -802,6 +916,27 @@ def run(ctx):
     ctx.obligation("falsifier:reported values with reordering on == off for every observable the code lets through "
                    "(ran on the real backend)", not verr, verr, kind="falsifier")
 
+    # F. time-dependent interaction matrix: reordering on vs off vs dense reference
+    serr = ""
+    swcases = [c["case"] for c in corpus if c.get("stage") == "switch"]
+    want, judged, tries = ctx.n(2, 14), 0, 0
+    while judged < want + len([c for c in corpus if c.get("stage") == "switch"]) and tries < 3 * want + 4:
+        c = swcases[tries] if tries < len(swcases) else gen_switch_case(ctx.rng, ctx.n(4, 5))
+        tries += 1
+        try:
+            e, was_judged = judge_switch(ctx, c, run_switch_case(c))
+        except Exception as ex:  # noqa: BLE001
+            e, was_judged = f"{type(ex).__name__}: {ex}"[:400], False
+        judged += 1 if was_judged else 0
+        ctx.count_case({"stage": "switch", **c}, was_judged)
+        hist["switch/judged" if was_judged else "switch/ill-conditioned-skipped"] = \
+            hist.get("switch/judged" if was_judged else "switch/ill-conditioned-skipped", 0) + 1
+        serr = serr or (e or "")
+    if judged < max(1, want // 2):
+        serr = serr or f"only {judged} well-conditioned switch cases out of {tries}"
+    ctx.obligation("falsifier:time-dependent interactions, reordering on == off == dense reference (ran on the real "
+                   "backend; reference run validated against the dense evolution)", not serr, serr, kind="falsifier")
+
     # which variant does the code follow?
     rv = sorted(flags["routing"] or [])
     variant = {"v_drives": [d for d, _ in rv], "v_mask": [m for _, m in rv], "v_tags": sorted(tags_variants),
@@ -822,7 +957,10 @@ def run(ctx):
                 "sequences with per-atom time-varying phases, closed-form expectation, run and resume; non-trivial = non-identity permutation")
     ctx.trusted_base += ["hand model Model/QubitOrder.v (validated by the correspondences of this run)",
                          "observation points: arguments of make_H/update_H, well_prepared_qubits_filter, Results returned"]
-    ctx.assumptions += ["end-to-end scenarios use non-interacting atoms with exact pi / pi-half pulses (tolerance 1e-4, "
+    ctx.assumptions += [f"switch scenarios: 3-5 atoms on a 7-8 um line in register order; a case is judged only if the same forced "
+                        f"chain order with a constant matrix agrees on/off to {SWITCH_COND} and the reordering-off run matches the "
+                        f"dense reference to {SWITCH_COND}; tolerance {SWITCH_TOL}",
+                        "end-to-end scenarios use non-interacting atoms with exact pi / pi-half pulses (tolerance 1e-4, "
                         "config precision 1e-9); interaction routing is checked exactly at make_H",
                         "relabelling covariance of the dynamics itself (ext theorem relabel_covariance) is not proved here"]
 
@@ -837,6 +975,11 @@ def replay(ctx, path):
     torch.set_num_threads(1)
     rp = json.loads(open(path).read())
     sc = rp["scenario"]
+    if rp.get("stage") == "switch":
+        out = run_switch_case(rp["case"])
+        print("replay switch:", {k: [round(x, 4) for x in v["occupation"]] for k, v in out.items()})
+        print("judged:", judge_switch(ctx, rp["case"], out))
+        return
     if rp.get("stage") == "values":
         print("replay values:", value_search(ctx, sc, {}))
         return
